@@ -123,6 +123,20 @@ def make_inputs(rng):
 
 # ----------------------------------------------------------------------------- concretisation
 
+_CYCLE = {}
+
+
+def reset_cycle():
+    _CYCLE.clear()
+
+
+def pick(name, options):
+    """representatives of an abstract class are used in turn, so that every one of them is exercised"""
+    k = _CYCLE.get(name, 0)
+    _CYCLE[name] = k + 1
+    return options[k % len(options)]
+
+
 def concretize(rng, p, i, ts, info, priors_cache):
     """abstract classes -> (method or None, kwargs).  Returns None if the combination has no concrete
     representative for this input (e.g. priors cannot be built)."""
@@ -131,11 +145,11 @@ def concretize(rng, p, i, ts, info, priors_cache):
     method = dict(vg="variational_gamma", io="inside_outside", mx="maximization", unknown="no_such_method")[p["method"]]
     mu, Ne = info["mu"], info["Ne"]
     kw["mutation_rate"] = {"absent": None, "good": float(mu * rng.choice([1.0, 0.5, 3.0])),
-                           "bad": [0, 0.0, -1e-8, float("nan")][int(rng.integers(0, 4))]}[p["rate"]]
+                           "bad": pick("c1", [0, 0.0, -1e-8, float("nan")])}[p["rate"]]
     if p["pop"] != "absent":
         kw["population_size"] = {
-            "good": [Ne, int(Ne), "obj"][int(rng.integers(0, 3))],
-            "bad": [0, -1.0, float("nan"), float("inf")][int(rng.integers(0, 4))],
+            "good": pick("c2", [Ne, int(Ne), "obj"]),
+            "bad": pick("c3", [0, -1.0, float("nan"), float("inf")]),
             "dictGood": dict(population_size=[Ne, 2 * Ne], time_breaks=[100.0]),
             "dictBad": dict(population_size=[Ne, -2 * Ne], time_breaks=[100.0]),
             "dictKeys": dict(foo=1),
@@ -159,25 +173,25 @@ def concretize(rng, p, i, ts, info, priors_cache):
     if p["rp"] == "1":
         kw["return_posteriors"] = bool(rng.integers(0, 2))
     if p["ci"] != "absent":
-        kw["constr_iterations"] = ([0, 1, 5, True] if p["ci"] == "good" else [-1, 1.0, "a", 2.5])[int(rng.integers(0, 4))]
+        kw["constr_iterations"] = pick("ci" + p["ci"], [0, 1, 5, True] if p["ci"] == "good" else [-1, 1.0, "a", 2.5])
     if p["mbl"] != "absent":
-        kw["min_branch_length"] = ([1e-8, 1e-3, 1.0] if p["mbl"] == "good" else [0, -1.0, float("nan")])[int(rng.integers(0, 3))]
+        kw["min_branch_length"] = pick("mbl" + p["mbl"], [1e-8, 1e-3, 1.0] if p["mbl"] == "good" else [0, -1.0, float("nan")])
     if p["mi"] != "absent":
-        kw["max_iterations"] = ([1, 3, 2] if p["mi"] == "good" else [0, -1, float("nan")])[int(rng.integers(0, 3))]
+        kw["max_iterations"] = pick("mi" + p["mi"], [1, 3, 2] if p["mi"] == "good" else [0, -1, float("nan")])
     if p["ms"] != "absent":
-        kw["max_shape"] = ([2.0, 1000, 1.5] if p["ms"] == "good" else [1, 0.5, float("nan")])[int(rng.integers(0, 3))]
+        kw["max_shape"] = pick("ms" + p["ms"], [2.0, 1000, 1.5] if p["ms"] == "good" else [1, 0.5, float("nan")])
     if p["vgo"] == "1":
         k = int(rng.integers(0, 4))
         kw.update([dict(rescaling_intervals=int(rng.choice([0, 3]))), dict(rescaling_iterations=int(rng.choice([0, 2]))),
                    dict(match_segregating_sites=bool(rng.integers(0, 2))), dict(regularise_roots=False)][k])
     if p["eps"] != "absent":
-        kw["eps"] = ([1e-8, 0, 1e-6] if p["eps"] == "good" else [-1e-8, -1.0, float("nan")])[int(rng.integers(0, 3))]
+        kw["eps"] = pick("eps" + p["eps"], [1e-8, 0, 1e-6] if p["eps"] == "good" else [-1e-8, -1.0, float("nan")])
     if p["ps"] != "absent":
-        kw["probability_space"] = (["linear", "logarithmic"] if p["ps"] == "good" else ["foo", "log"])[int(rng.integers(0, 2))]
+        kw["probability_space"] = pick("ps" + p["ps"], ["linear", "logarithmic"] if p["ps"] == "good" else ["foo", "log"])
     if p["nt"] != "absent":
-        kw["num_threads"] = ([0, 1, 1, 2] if p["nt"] == "good" else [-1, -2, -1, -3])[int(rng.integers(0, 4))]
+        kw["num_threads"] = pick("nt" + p["nt"], [0, 1, 1, 2] if p["nt"] == "good" else [-1, -2, -1, -3])
     if p["ioo"] == "1":
-        kw.update([dict(outside_standardize=bool(rng.integers(0, 2))), dict(ignore_oldest_root=bool(rng.integers(0, 2)))][int(rng.integers(0, 2))])
+        kw.update(pick("c7", [dict(outside_standardize=bool(rng.integers(0, 2))), dict(ignore_oldest_root=bool(rng.integers(0, 2)))]))
     if p["au"] == "1":
         kw["allow_unary"] = True
     if p["rf"] == "1":
